@@ -51,6 +51,8 @@ ASSUMPTIONS = [
     "exactly one; a coroutine endpoint may then never start); the ERROR URI and ERROR payload are not asserted (only that it "
     "is an ERROR for that request); a result whose encoding is exactly 2^24 octets under a 2^24 RawSocket limit is not "
     "generated (the 24-bit length field cannot carry it)",
+    "WebSocket: maxMessagePayloadSize bounds the whole message whether or not autoFragmentSize (0, far below, below, equal, "
+    "above the limit) makes the transport fragment it; the router-side parser reassembles fragments before counting",
     "a RawSocket limit of 2^9 cannot be driven: the session's own HELLO (696-871 octets) does not fit, so no session exists",
     "late progress is only driven for an invocation that was cancelled by INTERRUPT while its endpoint keeps working (the "
     "endpoint is not at fault); calling progress() after the endpoint's own result is regarded as API misuse and not driven",
@@ -74,6 +76,8 @@ DECIDING = {
     "unregister_requests": 1000, "unregistered_delivered": 800, "replies_due_after_unregistered": 500,
     "inv_between_unregister_and_reply": 200, "unregister_refused": 100,
     "explicit_false_receive_progress_checked": 2000, "explicit_false_progressive_endpoint": 500, "progress_idiom": 2,
+    "autofragment_cases": 1000, "autofragment_limit_judged": 500, "autofragment_oversized_judged": 300,
+    "ws_fragmented_messages": 1000, "autofragment_relation": 8,
     "bound_object_compared": 3000, "falsy_object_invocations": 1000, "object_truth": 6,
 }
 
@@ -125,8 +129,23 @@ class Gen:
         if self.transport == "rawsocket":
             return {"exp": r.choice([10, 10, 11, 11, 12, 13, 14, 16, 17])}
         if not need_limit and r.random() < 0.35:
-            return None
-        return {"ws": r.choice([1024, 1024, 1100, 1500, 2048, 4096, 65535, 65536, 65537, 100000])}
+            return {"ws": 0, "frag": r.choice([100, 126, 1000, 65536])} if r.random() < 0.25 else None
+        lim = {"ws": r.choice([1024, 1024, 1100, 1500, 2048, 4096, 65535, 65536, 65537, 100000])}
+        if r.random() < 0.5:
+            lim["frag"] = self.frag_for(lim["ws"])
+        return lim
+
+    def frag_for(self, n, rel=None):
+        """autoFragmentSize relative to maxMessagePayloadSize n: far below, below, equal, above."""
+        r = self.rng
+        rel = rel or r.choice(["tiny", "below", "equal", "above"])
+        if rel == "tiny":
+            return r.choice([1, 16, 125]) if n <= 4096 else r.choice([126, 1000, n // 16])
+        if rel == "below":
+            return r.choice([n - 1, n // 2, n // 3 + 1])
+        if rel == "equal":
+            return n
+        return r.choice([n + 1, 2 * n])
 
     def proc(self, style=None, det="?"):
         r = self.rng
@@ -492,9 +511,15 @@ def gen_limits(g, tier, part, parts, seed):
             exps = list(range(10, 25))
         limits = [{"exp": e} for e in exps]
     else:
-        limits = [{"ws": n} for n in (1024, 1025, 1500, 4096, 65535, 65536, 65537, 131072, 1 << 20)] + [None]
+        limits = [None]
+        for n in (1024, 1025, 1500, 4096, 65535, 65536, 65537, 131072, 1 << 20):
+            limits.append({"ws": n})
+            rels = ["tiny", "below", "equal", "above"]
+            for rel in (rels if (tier != "quick" or n <= 65536) else [r.choice(rels)]):
+                limits.append({"ws": n, "frag": g.frag_for(n, rel)})
     for lim in limits:
         size = (2 ** lim["exp"] if "exp" in lim else lim["ws"]) if lim else 0
+        fragged = bool(lim and lim.get("frag"))
         huge = size >= 2 ** 21
         large = size >= 2 ** 17
         kinds = [["ret", "big:+1"], ["ret", "big:-1"], ["ret", "big:0"], ["raise", "big:+1"], ["raise", "big:0"], ["raise", "ubig:+1"], ["ret", "big:x2"]]
@@ -502,10 +527,12 @@ def gen_limits(g, tier, part, parts, seed):
             kinds = [["ret", "big:+1"]] if tier == "quick" else kinds[:5]
         elif large and tier == "quick":
             kinds = [["ret", "big:+1"], ["ret", "big:0"], ["raise", "big:+1"]]
+        elif fragged and tier == "quick":
+            kinds = [["ret", "big:+1"], ["ret", "big:-1"], ["ret", "big:0"], ["raise", "big:+1"], ["ret", "big:x2"]]
         for out in kinds:
             if lim and lim.get("exp") == 24 and out[1].endswith(":0"):
                 continue      # 2^24 octets cannot be framed with a 24-bit length field: not asserted
-            for mode in (("sync",) if (huge or (large and tier == "quick")) else ("sync", "pending")):
+            for mode in (("sync",) if (huge or ((large or fragged) and tier == "quick")) else ("sync", "pending")):
                 idx += 1
                 if idx % parts != part:
                     continue
@@ -526,7 +553,7 @@ def _account(case, res, run, R, fw):
         R.seen("nontrivial", _hash([fw, case]))
     R.seen("families", case.get("family", "?"))
     lim = case.get("limit")
-    R.seen("limits", "none" if not lim else ("exp%d" % lim["exp"] if "exp" in lim else "ws%d" % lim["ws"]))
+    R.seen("limits", "none" if not lim else ("exp%d" % lim["exp"] if "exp" in lim else "ws%d%s" % (lim["ws"], "+frag" if lim.get("frag") else "")))
     n_pending = sum(1 for i, inv in enumerate(case["invs"]) if run.delivered[i] and inv["plan"]["mode"] == "pending")
     if n_pending >= 2:
         R.count("concurrent_cases")
